@@ -102,6 +102,7 @@ func run(args []string, stdout io.Writer) error {
 		if err != nil {
 			return fmt.Errorf("error getting NAL units: %w", err)
 		}
+		nalus = dropEmptyNalus(nalus)
 		frames, err := findAnnexBFrames(nalus, o.codec)
 		if err != nil {
 			return fmt.Errorf("error finding frames: %w", err)
@@ -205,6 +206,7 @@ func parseProgressiveMp4(w io.Writer, f *mp4.File, maxNrSamples int, codec strin
 		if err != nil {
 			return err
 		}
+		nalus = dropEmptyNalus(nalus)
 		switch codec {
 		case "avc", "h.264", "h264":
 			if avcSPS == nil {
@@ -293,6 +295,7 @@ func parseFragmentedMp4(w io.Writer, f *mp4.File, maxNrSamples int, codec string
 		if err != nil {
 			return err
 		}
+		nalus = dropEmptyNalus(nalus)
 		switch codec {
 		case "avc", "h.264", "h264":
 			err = printAVCNalus(w, avcSPS, nalus, i+1, s.PresentationTime(), seiLevel, parameterSets, nrRaw)
@@ -493,6 +496,18 @@ func findAnnexBFrames(nalus [][]byte, codec string) ([][][]byte, error) {
 		frames = append(frames, nalus[frameStart:])
 	}
 	return frames, nil
+}
+
+// dropEmptyNalus removes zero-length NAL units (two adjacent start codes or a zero length field):
+// they have no header byte to look at.
+func dropEmptyNalus(nalus [][]byte) [][]byte {
+	out := nalus[:0]
+	for _, nalu := range nalus {
+		if len(nalu) > 0 {
+			out = append(out, nalu)
+		}
+	}
+	return out
 }
 
 func isAvcAudNalu(nalu []byte) bool {
